@@ -20,12 +20,20 @@ SPEC = {
              "request in five has no postprocessors at all; URI / header / body templates over source "
              "rows, variables, own and earlier steps' preprocessor variables and values captured by var/jsonpath, var/header (with "
              "lower/upper/substr/replace) and var/xpath of earlier steps, incl. references to steps that did not run; preprocessors with "
-             "[next], [last], [i], variables and earlier steps' values; assert/response (status, body, header). The description is "
+             "[next], [last], [i], variables and earlier steps' values; assert/response (status, body, header, and - added after seeded "
+             "defect C15/m7 - `size` with op > / < / = in 45 % of the assertions, with or without body patterns next to it: thresholds of "
+             "< and > lie at least 40 bytes above or below every body the request can be answered with, 70 % chosen to hold and 30 % to "
+             "fail, `=` takes the exact size of one planned answer or a size no answer has; a body of exactly val bytes under < or >, which "
+             "the documentation does not settle, is never generated and checked for at run time). One request in four is answered with "
+             "bodies padded by 300 / 1500 / 2500 / 5000 bytes. In 65 % of the cases the target sends part of its answers (a drawn periodic "
+             "pattern over the request number) WITHOUT Content-Length, flushed in two pieces at a drawn offset (chunked transfer "
+             "encoding); all other answers carry Content-Length, also beyond Go's 2 KiB write buffer. The description is "
              "rendered to YAML (internal/scengen) and run by the real http/scenario provider + gun + engine (pool built by "
              "config.DecodeAndValidate, recording aggregator) against the in-process recording target, which answers the n-th request "
              "with values unique to n and the generated faults (non-200 status, connection closed without a response, connection dropped "
              "in the middle of the body after status line, headers and the Content-Length of the whole body were sent - both kinds "
-             "of transport failure also aimed at steps without postprocessors -, body without the asserted marker, "
+             "of transport failure also aimed at steps without postprocessors -, body 4000 bytes longer than usual (aimed at steps with a size "
+             "assertion), body without the asserted marker, "
              "missing asserted header, captured JSON object turned into a string so that a later template cannot be executed). "
              "TestScenarioExecution: one instance, whole multiples of sum(w)/gcd shots; the reference interpreter is replayed against "
              "the request log and the sample stream step by step; the engine's provider is wrapped by a pass-through recorder and the "
@@ -42,6 +50,12 @@ SPEC = {
                "TestScenarioExecution/fail_transport_body_cut": 0.08,
                "TestScenarioExecution/fail_transport_step_without_postprocessors": 0.06,
                "TestScenarioExecution/fail_body_cut_step_without_postprocessors": 0.04,
+               # classes added after seeded defect C15/m7 (size-only assertion judged on an answer without Content-Length)
+               "TestScenarioExecution/assert_size_only_chunked_holds": 0.03, "TestScenarioExecution/assert_size_only_chunked_fails": 0.015,
+               "TestScenarioExecution/assert_size_only_chunked_lt_fails": 0.005, "TestScenarioExecution/assert_size_only_chunked_gt_holds": 0.01,
+               "TestScenarioExecution/assert_size_only_content_length_holds": 0.04, "TestScenarioExecution/assert_size_only_content_length_fails": 0.015,
+               "TestScenarioExecution/assert_size_with_body_patterns_chunked": 0.04, "TestScenarioExecution/fail_assert_size": 0.06,
+               "TestScenarioExecution/fail_assert_size_chunked_reply": 0.035, "TestScenarioExecution/reply_chunked": 0.3,
                "TestScenarioExecution/fail_assert": 0.1, "TestScenarioExecution/fail_transport": 0.05,
                "TestScenarioExecution/fail_template_by_captured_value": 0.02, "TestScenarioExecution/fail_at_middle_step": 0.08,
                "TestScenarioExecution/scenarios_ge_2": 0.25, "TestScenarioExecution/weights_gcd_gt_1": 0.03,
@@ -56,14 +70,16 @@ SPEC = {
         "text": ("Per invocation the target's request log must be the expanded step list (multiplicities, order) cut after the first "
                  "failing step, every URI / header / body must equal the interpreter's rendering from source rows and from values set "
                  "earlier in the same invocation, every executed step must leave exactly one sample (status of the response, or marked "
-                 "failed for the failing step: failed assertion, closed connection, response body cut short by a dropped connection - with "
+                 "failed for the failing step: failed assertion - a `size` assertion is judged on the number of body bytes the target sent, whether they "
+                 "came with Content-Length or chunked -, closed connection, response body cut short by a dropped connection - with "
                  "or without postprocessors on the step -, template or preprocessor that cannot be evaluated), "
                  "nothing may be sent after a failed step, pauses (name(n,ms), sleep(ms), min_waiting_time) must separate the "
                  "recorded arrival times by at least their length, the scenario handed to the gun for an invocation must carry after every "
                  "step exactly the pause its own occurrence in the list states (none where none is stated), over whole cycles scenario i must run w_i/gcd times per cycle, and "
                  "[next] must hand out rows 0,1,2,... mod R per scenario and path (exact sequence with one instance, multiset with 1-4)."),
-        "note": ("The html templater, [rand], the randomisation functions, assert/response `size`, HCL input (C16) and the http2 gun "
-                 "are not exercised. substr is only generated in the forms substr(from) and substr(0,n), where the documentation "
+        "note": ("The html templater, [rand], the randomisation functions, HCL input (C16) and the http2 gun "
+                 "are not exercised. Size assertions: only the documented spellings > < = and never a body of exactly val bytes under < or > "
+                 "(the documentation does not say whether the comparison is strict). substr is only generated in the forms substr(from) and substr(0,n), where the documentation "
                  "(from, length) and the implementation (from, end) agree. A [next] path is confined to one scenario and used at most "
                  "once per preprocessor (the documentation does not settle sharing across scenarios or evaluation order inside one "
                  "mapping). At the target pauses are only bounded from below by the clock; that no pause is longer than stated (or present "
